@@ -720,6 +720,45 @@ def emitted_decl_rules(run, rule, f):
             run.violation(rule, "generator::encode_dispatch_data|policy-name", "`%s`: a named policy is not the one the emitted decoder call decodes into (its tables are installed in another policy's registry)" % astq.text(n)[:80], where(n))
 
 
+NARROW = re.compile(r"\b(unsigned short|short|uint16_t|std::uint16_t|unsigned char|uint8_t|std::uint8_t|char)\b")
+
+
+def stride_width_rule(run, rule, f):
+    """a stride is a product of group counts (16 classes on each of five parameters: 65536): the element type through which the
+    strides are written into the text, and the array they are declared in, hold at least 32 bits. (Slots, group and definition
+    indexes are bounded by the number of methods / classes / definitions and keep the 16-bit words of the format.)"""
+    where = lambda n: (f["file"], n["l"] if isinstance(n, dict) else f["line"])
+    ems = []
+    for n in astq.walk(f["body"]):
+        if n.get("k") == "CallExpr" and re.match(r"^std::(transform|copy)<", n.get("callee") or "") and any(x.get("k") == "MemberExpr" and x.get("member") == "strides" for x in astq.walk(n["c"][1])):
+            its = [x for x in astq.walk(n) if x.get("k") in ("CXXTemporaryObjectExpr", "CXXConstructExpr", "CXXFunctionalCastExpr") and "ostream_iterator<" in (x.get("t") or x.get("ctor") or "")]
+            ems.append((n, its))
+    if not ems:
+        run.broken.append("encode_dispatch_data: emission of the strides not found")
+        return
+    for n, its in ems:
+        if not its:
+            run.broken.append("encode_dispatch_data: the strides are not written through an ostream_iterator this rule can type (line %s)" % n["l"])
+            continue
+        t = its[0].get("t") or its[0].get("ctor") or ""
+        elem = re.search(r"ostream_iterator<([^,>]+)", t)
+        et = elem.group(1).strip() if elem else "?"
+        ok = elem is not None and not NARROW.search(et)
+        run.instance(rule, "encode_dispatch_data: strides are written through an element type of at least 32 bits (%s)" % et, where(n), ok=ok)
+        if not ok:
+            run.violation(rule, "generator::encode_dispatch_data|stride-width", "the strides are written through `%s`: a stride is a product of group counts and passes 65535 with 16 classes on each of five parameters - the decoded method then ignores its last virtual argument" % et, where(n))
+    lits = [x for x in astq.walk(f["body"]) if x.get("k") == "StringLiteral" and "headroom" in (x.get("s") or "") and "slots[" in (x.get("s") or "")]
+    if len(lits) == 1:
+        m = re.search(r"([A-Za-z_:0-9 ]+?)\s+slots\[", lits[0]["s"])
+        dt = m.group(1).strip() if m else "?"
+        ok = m is not None and not NARROW.search(dt)
+        run.instance(rule, "encode_dispatch_data: the emitted array of slots and strides has elements of at least 32 bits (%s)" % dt, where(lits[0]), ok=ok)
+        if not ok:
+            run.violation(rule, "generator::encode_dispatch_data|stride-array-width", "the emitted text declares `%s slots[...]` for the slots AND strides: strides beyond 65535 are reduced modulo 65536 when the text is compiled" % dt, where(lits[0]))
+    else:
+        run.broken.append("encode_dispatch_data: declaration of the slots array in the emitted text not found")
+
+
 def publish_rules(run, rule, dec, ast):
     """the decoder ends by publishing v-table pointers for Policy::classes - the raw registration RECORDS, in which a class that
     appears in two registration statements appears twice with the same id (the decoder's own v-table loop skips such repeats).
@@ -902,6 +941,7 @@ def check(run):
             c12.encoder_layout_rule(run, r2, f)
             text_rules(run, r2, f)
             emitted_decl_rules(run, r2, f)
+            stride_width_rule(run, r1, f)
         c12.codec_rule(run, r1, ast, encoder=False)
         for f in decs:
             decoder_rules(run, r1, r2, f, augs[0])
